@@ -50,6 +50,13 @@ var handWritten = []textCase{
 	{Tokens: "a = b ? c : d = e , f ;", Accept: true},
 	{Tokens: "try { } catch ( e ) { } finally { } try { } finally { }", Accept: true},
 	{Tokens: "function f ( a , b ) { return ; } ( function ( ) { return a } ) ( )", Accept: true},
+	{Tokens: "x = /=a/i", Accept: true},
+	{Tokens: "/=/", Accept: true},
+	{Tokens: "x = [ /=/ , /=b/g , 1 ] ; y /= /=/ . source", Accept: true},
+	{Tokens: "\\u0061 = b\\u0062 . \\u0069f + { i\\u0066 : 1 } . if", Accept: true},
+	{Tokens: "var \\u0069f = 1 ;"},
+	{Tokens: "function f ( \\u0074his ) { }"},
+	{Tokens: "f\\u006fr : while ( 0 ) break f\\u006fr ;"},
 	{Tokens: "a b ;"},
 	{Tokens: "a = ;"},
 	{Tokens: ""},
